@@ -105,6 +105,7 @@ pub struct Exch {
     pub state: AsyncState,
     pub upgrade: bool,
     pub waker: Option<Waker>,
+    pub polled_once: bool,
 }
 
 #[derive(Clone, Debug)]
@@ -153,6 +154,9 @@ pub struct World {
     /// the connection type reports `is_open()` while an exchange is in flight (the trait only says
     /// "the connection is open"; hyperdriver's own HttpConnection answers with its readiness)
     pub open_while_busy: bool,
+    /// the connection only becomes busy when the future returned by send_request is first polled
+    /// (any async-block Connection implementation; hyper's enqueues inside the call)
+    pub lazy_send: bool,
 }
 
 impl World {
@@ -492,6 +496,17 @@ impl Future for ExchFuture {
         match w.exchs[id].state {
             AsyncState::Pending => {
                 w.exchs[id].waker = Some(cx.waker().clone());
+                let c = w.exchs[id].conn;
+                if w.lazy_send && !w.conns[c].h2 && !w.conns[c].busy {
+                    // first poll: "the body is not ready yet" - nothing is on the wire; the future
+                    // asks to be polled again and the request goes out at that second poll
+                    if !w.exchs[id].polled_once {
+                        w.exchs[id].polled_once = true;
+                        cx.waker().wake_by_ref();
+                    } else {
+                        w.conns[c].busy = true;
+                    }
+                }
                 Poll::Pending
             }
             AsyncState::Ok => {
@@ -544,12 +559,19 @@ impl<B> Connection<B> for SimConn {
         let id = w.exchs.len();
         let c = self.conn;
         let req = request.extensions().get::<ReqId>().map(|r| r.0);
-        let usable = w.conns[c].open && !w.conns[c].upgraded && (w.conns[c].h2 || !w.conns[c].busy);
+        // a non-multiplexed connection carries one exchange at a time (C02), however it got here
+        let other_in_flight = !w.conns[c].h2 && w.exchs.iter().any(|e| e.conn == c && e.state == AsyncState::Pending);
+        if !w.conns[c].h2 && w.conns[c].open && !w.conns[c].upgraded && (w.conns[c].busy || other_in_flight) {
+            let detail = format!("request {:?} was sent on HTTP/1 connection {} while an earlier exchange on it had not finished", req, c);
+            let lazy = w.lazy_send;
+            w.flag("C02", "request_sent_on_busy_connection", serde_json::json!({"lazy_send": lazy}), detail);
+        }
+        let usable = w.conns[c].open && !w.conns[c].upgraded && (w.conns[c].h2 || !(w.conns[c].busy || other_in_flight));
         let state = if usable { AsyncState::Pending } else { AsyncState::Failed };
-        if usable && !w.conns[c].h2 {
+        if usable && !w.conns[c].h2 && !w.lazy_send {
             w.conns[c].busy = true;
         }
-        w.exchs.push(Exch { id, req, conn: c, state, upgrade: false, waker: None });
+        w.exchs.push(Exch { id, req, conn: c, state, upgrade: false, waker: None, polled_once: false });
         w.ev(40, id as u64, c as u64);
         ExchFuture { w: self.w.clone(), id, done: false }
     }
